@@ -145,6 +145,32 @@ pub fn worker_main(args: &[String]) {
         std::fs::write(&wal, serde_json::to_vec(&wal_file).unwrap()).ok();
 
         let report = minimize::run_case_isolated(&prop, &case, None);
+        if report.hung {
+            // A run that never reaches a scheduling point again cannot be stopped: report and
+            // end this process (the rest of this worker's slice is not explored).
+            sum.runs += 1;
+            *sum.outcomes.entry("hung".into()).or_default() += 1;
+            let v = Violation::new(&prop, "hang-watchdog", format!("the run did not finish within {:?} of wall-clock without reaching a scheduling point (a loop that never blocks, reads the disk or takes a lock)", minimize::watchdog()));
+            let liveness_prop = matches!(prop.as_str(), "C08" | "C16");
+            if liveness_prop {
+                let path = replays_dir().join(format!("{prop}-hang-watchdog-{seed:016x}.json"));
+                let file = ReplayFile { violation: Some(v.clone()), note: "not minimised: the run never returns".into(), ..wal_file.clone() };
+                std::fs::write(&path, serde_json::to_vec_pretty(&file).unwrap()).ok();
+                if let Some(k) = known.matching(&v, &report.profile) {
+                    *sum.known_counts.entry(k.id.clone()).or_default() += 1;
+                } else {
+                    sum.violation_count += 1;
+                    *sum.violation_classes.entry(format!("{} ({})", v.class, report.profile)).or_default() += 1;
+                    sum.violations.push(FoundViolation { violation: v, profile: report.profile.clone(), run_index: index, replay: Some(path.to_string_lossy().into_owned()) });
+                }
+            } else {
+                sum.harness_errors.push(format!("run {index} hung (watchdog); liveness is not this property's verdict, the run was not judged"));
+            }
+            sum.harness_errors.push(format!("worker {worker_id} stopped after a hung run at index {index}; the rest of its slice was not explored"));
+            std::fs::remove_file(&wal).ok();
+            println!("SUMMARY {}", serde_json::to_string(&sum).unwrap());
+            std::process::exit(0);
+        }
         sum.runs += 1;
         *sum.outcomes.entry(report.outcome_class.clone()).or_default() += 1;
         *sum.profiles.entry(report.profile.clone()).or_default() += 1;
@@ -423,6 +449,14 @@ pub fn check_main(cfg: CheckCfg) -> i32 {
         }
         return 2;
     }
+    let discarded: u64 = total.discarded.values().sum();
+    if total.runs > 0 && discarded * 4 > total.runs {
+        eprintln!(
+            "harness error: {discarded} of {} runs could not be judged ({:?}); a check that cannot look is not a pass",
+            total.runs, total.discarded
+        );
+        return 2;
+    }
     if total.runs == 0 {
         eprintln!("harness error: no runs executed");
         return 2;
@@ -512,6 +546,11 @@ pub fn replay_main(path: &Path) -> i32 {
         }
     };
     let report = minimize::run_case_isolated(&file.property, &file.case, file.plan.clone());
+    if report.hung {
+        println!("replay of {}: the run did not finish within {:?} (watchdog)", path.display(), minimize::watchdog());
+        println!("VIOLATION property={} replay={}", file.property, path.display());
+        std::process::exit(1);
+    }
     println!("replay of {}: outcome={} steps={} log_hash={:016x}", path.display(), report.outcome_class, report.steps, report.log_hash);
     if let Some(e) = &report.harness_error {
         eprintln!("harness error: {e}");
